@@ -331,6 +331,11 @@ func checkC02(c c02Case, ctx *vCtx) *vFailure {
 		{"reg", []string{"reg"}, false, vRegExpect{true, true}},
 		{"reg left-aligned", []string{"reg", "--internal-template-name", "left-aligned"}, true, vRegExpect{true, true}},
 		{"reg old reporter", []string{"reg", "--use-old-reg-reporter"}, false, vRegExpect{true, true}},
+		{"reg --totals-only", []string{"reg", "--totals-only"}, false, vRegExpect{false, true}},
+		{"reg --no-totals", []string{"reg", "--no-totals"}, false, vRegExpect{true, false}},
+		{"reg old reporter --totals-only", []string{"reg", "--use-old-reg-reporter", "--totals-only"}, false, vRegExpect{false, true}},
+		{"reg old reporter --no-totals", []string{"reg", "--use-old-reg-reporter", "--no-totals"}, false, vRegExpect{true, false}},
+		{"reg left-aligned --totals-only", []string{"reg", "--internal-template-name", "left-aligned", "--totals-only"}, true, vRegExpect{false, true}},
 	}
 	for _, v := range vs {
 		inv := vInvocation{Args: argsFor(v.args...)}
